@@ -109,6 +109,9 @@ where
 	///
 	/// This will run on the tokio runtime until the server is stopped or the `ServerHandle` is dropped.
 	pub fn start(mut self, methods: impl Into<Methods>) -> ServerHandle {
+		#[cfg(jsonrpsee_verif)]
+		use jsonrpsee_core::verif::rt as tokio;
+
 		let methods = methods.into();
 		let (stop_tx, stop_rx) = watch::channel(());
 
@@ -1016,6 +1019,9 @@ where
 	}
 
 	fn call(&mut self, request: HttpRequest<Body>) -> Self::Future {
+		#[cfg(jsonrpsee_verif)]
+		use jsonrpsee_core::verif::rt as tokio;
+
 		let mut request = request.map(HttpBody::new);
 
 		let conn_guard = &self.inner.conn_guard;
@@ -1173,6 +1179,9 @@ where
 	Body: http_body::Body<Data = Bytes> + Send + 'static,
 	<Body as http_body::Body>::Error: Into<BoxError>,
 {
+	#[cfg(jsonrpsee_verif)]
+	use jsonrpsee_core::verif::rt as tokio;
+
 	let ProcessConnection {
 		http_middleware,
 		rpc_middleware,
